@@ -176,6 +176,11 @@ func cmdCheck(args []string) {
 			machinery++
 			continue
 		}
+		if len(tr.DeadCovers) > 0 {
+			fmt.Printf("MACHINERY: %s: unreachable under its own assumptions (vacuous proof): %v\n", tr.Name, tr.DeadCovers)
+			machinery++
+			continue
+		}
 		if isKnown && tr.Cover != "sat" {
 			// the carved-out case is empty: nothing to report
 			continue
